@@ -34,7 +34,9 @@ type c05Describer struct {
 	records map[reflect.Type]string
 }
 
-func strNode(s string) *ev.Node { return ev.ArrayNode(events.ArrayTypeString, uint64(len(s)), []byte(s)) }
+func strNode(s string) *ev.Node {
+	return ev.ArrayNode(events.ArrayTypeString, uint64(len(s)), []byte(s))
+}
 
 func c05SnakeCase(name string) string {
 	// FooBar -> foo_bar ; only used on the generator's unambiguous CamelCase names
